@@ -472,7 +472,15 @@ pub fn addze(
             lhs.clone(),
             Expression::zext(lhs.bits(), expr_scalar("carry", 1))?,
         )?;
-        block.assign(dst, src);
+        // the sum is kept in a temporary, because the carry out of the
+        // addition is computed from the sum and the (old) value of rA
+        let sum = Scalar::temp(instruction.address, 32);
+        block.assign(sum.clone(), src);
+        block.assign(
+            scalar("carry", 1),
+            Expression::cmpltu(sum.clone().into(), lhs)?,
+        );
+        block.assign(dst, sum.into());
 
         block.index()
     };
@@ -1044,11 +1052,25 @@ pub fn srawi(
     // get operands
     let dst = get_register(detail.operands[0].reg())?.scalar();
     let lhs = get_register(detail.operands[1].reg())?.expression();
-    let rhs = expr_const(detail.operands[2].imm() as u64, 32);
+    let sh = detail.operands[2].imm() as u64;
+    let rhs = expr_const(sh, 32);
+
+    if sh > 31 {
+        return Err(Error::Custom("Invalid shift amount for srawi".to_string()));
+    }
 
     let block_index = {
         let block = control_flow_graph.new_block()?;
 
+        // CA is set if rS is negative and any 1-bit is shifted out
+        let shifted_out = Expression::and(lhs.clone(), expr_const((1 << sh) - 1, 32))?;
+        block.assign(
+            scalar("carry", 1),
+            Expression::and(
+                Expression::cmplts(lhs.clone(), expr_const(0, 32))?,
+                Expression::cmpneq(shifted_out, expr_const(0, 32))?,
+            )?,
+        );
         block.assign(dst, Expression::sra(lhs, rhs)?);
 
         block.index()
